@@ -4,7 +4,7 @@ in-memory filesystem and backend.  Only gwf's public classes are used."""
 import os
 import pathlib
 
-from . import model
+from . import model, scratch
 
 ROOT = "/proj"
 
@@ -149,7 +149,7 @@ def real_root(which=0):
         import shutil
         import tempfile
 
-        d = os.path.realpath(tempfile.mkdtemp(prefix="gwfapiroot", dir="/dev/shm" if os.path.isdir("/dev/shm") else None))
+        d = os.path.realpath(tempfile.mkdtemp(prefix="gwfapiroot", dir=scratch.base()))
         atexit.register(shutil.rmtree, d, True)
         # working directories used by the generators, a symlinked alias of one of them, and in each of them a
         # symlink named q9 (the spelling "q9/../x" must be normalised textually, not through the link)
